@@ -231,10 +231,10 @@ func main() {
 			Property: id, Tier: *tier, Seed: seed,
 			Explanation: p.Explanation, Decides: p.Decides, NotCovered: p.NotCovered,
 			Assumptions: p.Assumptions,
-			Trusted:     []string{"go/types", "go/ssa (x/tools v0.29.0)", "callgraph/vta over cha", "the library models written into the rules (DESIGN.md section 10)"},
+			Trusted:     []string{"go/types", "go/ssa (x/tools v0.29.0)", "callgraph/vta over cha", "the library models written into the rules (DESIGN.md section 10)", "the source-level inliner for helpers unknown to the rules (DESIGN.md 12.7; validated by type-checking; inactive when the tree declares no unknown function)"},
 			Rules:       rs,
 			Analysed: map[string]interface{}{"repo": w.Repo, "module_packages": len(w.Pkgs), "module_functions": nfn,
-				"all_functions": len(w.AllFns), "load_s": loadS},
+				"all_functions": len(w.AllFns), "load_s": loadS, "normalisation": normSummary(w)},
 			WallS:      wall,
 			CheckerCmd: fmt.Sprintf("./bin/svcheck -prop %s -tier %s", id, *tier),
 		}
@@ -243,6 +243,33 @@ func main() {
 		}
 	}
 	os.Exit(exit)
+}
+
+// normSummary reports what the source-level pre-pass did on this run (DESIGN.md 12.7).
+func normSummary(w *world.World) map[string]interface{} {
+	m := map[string]interface{}{"unknown_functions": 0, "calls_inlined": 0, "helpers_removed": 0, "functions_renamed": 0, "fields_renamed": len(w.FieldNotes)}
+	if n := w.Norm; n != nil {
+		m["unknown_functions"] = len(n.Unknown)
+		m["calls_inlined"] = len(n.Inlined)
+		m["helpers_removed"] = len(n.Removed)
+		m["functions_renamed"] = len(n.Renamed)
+		if len(n.Unknown) > 0 {
+			m["unknown"] = n.Unknown
+		}
+		if len(n.Skipped) > 0 {
+			m["left_as_calls"] = n.Skipped
+		}
+		if len(n.Problems) > 0 {
+			m["problems"] = n.Problems
+		}
+		if len(n.Renamed) > 0 {
+			m["renamed"] = n.Renamed
+		}
+	}
+	if len(w.FieldNotes) > 0 {
+		m["field_notes"] = w.FieldNotes
+	}
+	return m
 }
 
 func printManifest() {
